@@ -22,6 +22,9 @@ def run(prop_id, tier, seed, spec):
     ok, out, bad = C.coq_build()
     prop_file = "theories/Properties/%s.v" % prop_id
     cone = C.coq_cone(prop_file) if os.path.exists(os.path.join(C.COQ, prop_file)) else []
+    extra_files = [f for f in spec.get("extra_prop_files", []) if os.path.exists(os.path.join(C.COQ, f))]
+    for f in extra_files:
+        cone = sorted(set(cone) | set(C.coq_cone(f)))
     if not ok:
         problems.append({"what": "Coq build failed", "where": bad, "log": out[-1500:]})
     opened, closed, admitted = C.count_obligations(cone) if cone else (0, 0, [])
@@ -29,7 +32,7 @@ def run(prop_id, tier, seed, spec):
         problems.append({"what": "Admitted/Axiom in cone", "where": admitted})
     assum, assum_raw = {}, ""
     if ok and cone:
-        aok, assum, assum_raw = C.coq_assumptions(prop_id)
+        aok, assum, assum_raw = C.coq_assumptions(prop_id, extra_files)
         if not aok:
             problems.append({"what": "Print Assumptions run failed", "log": assum_raw[-1500:]})
         for thm, axs in assum.items():
@@ -88,7 +91,7 @@ def run(prop_id, tier, seed, spec):
         "obligations": max(opened, 1), "discharged": discharged if opened else 0,
         "checker_cmd": "make -C coq -j16 (coq_makefile, full .vo) ; coqc Print Assumptions on Properties/%s.v" % prop_id,
         "trusted_base": C_trusted(spec, assum),
-        "theorems": C.theorem_statements(prop_file) if cone else [],
+        "theorems": (C.theorem_statements(prop_file) + [t for f in extra_files for t in C.theorem_statements(f)]) if cone else [],
         "print_assumptions": {k: (v or ["Closed under the global context"]) for k, v in assum.items()},
         "cone_files": cone,
         "evaluations": res.get("evaluations", 0),
